@@ -302,7 +302,9 @@ def run_case(case):
         for k in range(case["n"]):
             name = names[(k + case["seed"]) % len(names)]
             try:
-                m = gen.make_molecule(rng, small=rng.random() < 0.5, mean_units=2)
+                # the prefix operators need a prefix; a closed right end makes a wrong prefix generate silently if the check is gone
+                arch = rng.choice(["homo", "homo", "graft", "alternating", "comb"]) if name in ("prefix-descriptor-differs", "missing-prefix") else None
+                m = gen.make_molecule(rng, arch, small=rng.random() < 0.5, mean_units=2)
             except ValueError:
                 continue
             orig = m.to_text()
